@@ -239,4 +239,16 @@ CONF["C09"] = {
     "assumptions": ["race detector soundness for the executed schedules", "schedules are sampled by the Go scheduler"],
 }
 
+CONF["C19"] = {
+    "pkg": "c19",
+    "level": "exploration",
+    "technique": "rapid-generated dependency-closed product-profile selections of the five bundled workbooks, run through the real fitgen command twice (xlsx and SDK-zip input); oracles: exit status, byte determinism, declared version, go/types type-check located in generated files, row-by-row comparison with an independent XML reading of the workbook",
+    "level_text": "Generated search over product profiles: a drawn set of enabled rows is disabled, closed under the two dependency rules (component targets, sub-field reference fields) by re-enabling (construction, not rejection), written into a copy of the workbook by removing EXAMPLE cells, and the real command is run twice. The output must exist, be byte-identical across runs, declare the requested version, parse, type-check together with every hand-written library file without any error located in a generated file, and contain for every message exactly the enabled rows as struct fields in workbook order with _fields entries {position, number, type code, length} equal to an independent reading of the row, and nothing for disabled rows.",
+    "level_note": "Trusted: harness/wb (zip/XML reader independent of tealeg/xlsx), its reading of names, base types, array flags, lengths and kinds; go/types. 'Compiles together with the support code' is decided on the generated side only: even the stock workbooks do not build with today's file_types.go (it needs messages of SDK 21.115), so type errors located in hand-written files are counted, not judged. Flags -hrst, -timestamp, -test are not part of the property.",
+    "quick": {"checks": 2, "timeout": 600, "shrinktime": "30s"},
+    "thorough": {"checks": 40, "timeout": 3000, "shrinktime": "120s"},
+    "rule": "stock: the 5 workbooks x {xlsx with -sdk, FitSDKRelease zip}. selections: 8 per rapid case, each = workbook x mode (a few rows / a share of 5-60% of all rows / most of one message / rows involved in dependencies) closed under dependencies; non-trivial = at least one row disabled and at least one dependency re-enabled by the closure; distinct by fingerprint of (version, disabled rows).",
+    "assumptions": ["dependency model: component targets and sub-field reference fields of enabled rows (validated: single-row disabling of workbook 21.40 fails for exactly those rows)"],
+}
+
 NOT_APPLICABLE = {}
